@@ -735,6 +735,11 @@ class Blockwise(ArrayExpr):
                 start, stop, step = idx.indices(dim_size)
                 if step != 1:
                     return None  # Non-unit step not supported
+                if stop <= start:
+                    # An empty selection keeps no block: the inputs would shrink
+                    # to one zero-size block that matches neither a per-block
+                    # ``adjust_chunks`` nor what ``func`` accepts
+                    return None
 
                 first, last = find_block_range(cumsum, start, stop)
                 if first is None:
